@@ -33,6 +33,8 @@ func runC14(c *Ctx) {
 	c14Forms(c)
 	c14IdpFlow(c)
 	c14History(c)
+	c14IdpInitiated(c)
+	c14RelayLengths(c)
 	c14URLParse(c)
 	c14Locations(c)
 	c14Elements(c)
